@@ -427,6 +427,14 @@ func nodeish(p *load.Program, t types.Type) bool {
 
 // descent: how arg derives from a parameter of fn: returns (param, loads) or (nil, 0).
 func descent(p *load.Program, v ssa.Value, depth int) (*ssa.Parameter, int) {
+	return descentS(p, v, depth, map[*ssa.Phi]bool{})
+}
+
+// selfPhi marks an edge that leads back to a phi under evaluation (a loop-carried walk such as
+// n = n.getNext()): it derives from whatever the other edges derive from.
+var selfPhi = &ssa.Parameter{}
+
+func descentS(p *load.Program, v ssa.Value, depth int, stack map[*ssa.Phi]bool) (*ssa.Parameter, int) {
 	if depth > 10 {
 		return nil, 0
 	}
@@ -435,7 +443,7 @@ func descent(p *load.Program, v ssa.Value, depth int) (*ssa.Parameter, int) {
 		return x, 0
 	case *ssa.UnOp:
 		if x.Op == token.MUL {
-			pr, n := descent(p, x.X, depth+1)
+			pr, n := descentS(p, x.X, depth+1, stack)
 			// a load through a field/element address counts as one step down; loading a spilled parameter cell does not
 			if _, isAlloc := x.X.(*ssa.Alloc); isAlloc {
 				return allocParam(x.X.(*ssa.Alloc)), 0
@@ -443,39 +451,47 @@ func descent(p *load.Program, v ssa.Value, depth int) (*ssa.Parameter, int) {
 			return pr, n + 1
 		}
 	case *ssa.FieldAddr:
-		return descent(p, x.X, depth+1)
+		return descentS(p, x.X, depth+1, stack)
 	case *ssa.IndexAddr:
-		return descent(p, x.X, depth+1)
+		return descentS(p, x.X, depth+1, stack)
 	case *ssa.Field:
-		pr, n := descent(p, x.X, depth+1)
+		pr, n := descentS(p, x.X, depth+1, stack)
 		return pr, n + 1
 	case *ssa.TypeAssert:
-		return descent(p, x.X, depth+1)
+		return descentS(p, x.X, depth+1, stack)
 	case *ssa.Extract:
-		return descent(p, x.Tuple, depth+1)
+		return descentS(p, x.Tuple, depth+1, stack)
 	case *ssa.MakeInterface:
-		return descent(p, x.X, depth+1)
+		return descentS(p, x.X, depth+1, stack)
 	case *ssa.ChangeInterface:
-		return descent(p, x.X, depth+1)
+		return descentS(p, x.X, depth+1, stack)
 	case *ssa.Call:
 		// trivial getter: invoke/static method with no args returning a node-ish value
 		if x.Call.IsInvoke() && len(x.Call.Args) == 0 && nodeish(p, x.Type()) {
-			pr, n := descent(p, x.Call.Value, depth+1)
+			pr, n := descentS(p, x.Call.Value, depth+1, stack)
 			return pr, n + 1
 		}
 		if sc := x.Call.StaticCallee(); sc != nil && len(x.Call.Args) == 1 && nodeish(p, x.Type()) && len(sc.Blocks) == 1 {
-			pr, n := descent(p, x.Call.Args[0], depth+1)
+			pr, n := descentS(p, x.Call.Args[0], depth+1, stack)
 			return pr, n + 1
 		}
 	case *ssa.Phi:
 		// all edges must derive from the same parameter; take the minimum number of loads
+		if stack[x] {
+			return selfPhi, 1 << 20
+		}
+		stack[x] = true
+		defer delete(stack, x)
 		var pr *ssa.Parameter
 		min := 1 << 30
 		for _, e := range x.Edges {
 			if e == ssa.Value(x) {
 				continue
 			}
-			q, n := descent(p, e, depth+1)
+			q, n := descentS(p, e, depth+1, stack)
+			if q == selfPhi {
+				continue
+			}
 			if q == nil || (pr != nil && q != pr) {
 				return nil, 0
 			}
@@ -683,8 +699,28 @@ func rulePSct(c *engine.Context) *report.Rule {
 		r.Nontrivial++
 		r.Sample("%s: every cycle passes a call whose node argument is loaded from the caller's node: %v", label, !bad)
 		if bad {
-			r.Violation("recursion without descent: "+label, p.RelPos(comp[0].Pos()),
+			f := r.Violation("recursion without descent: "+label, p.RelPos(comp[0].Pos()),
 				"the functions call each other along %s without moving down the syntax tree (arguments are passed on unchanged or exchanged): the recursion need not terminate", strings.Join(cyc, ", "))
+			// Parse totality (C02) is concerned by cycles reachable while parsing, evaluation totality (C03) by cycles reachable while evaluating
+			var props []string
+			inParse, inEval := false, false
+			for _, x := range comp {
+				if p.ParsePhase[x] {
+					inParse = true
+				}
+				if p.Eval[x] {
+					inEval = true
+				}
+			}
+			if inParse {
+				props = append(props, "C02")
+			}
+			if inEval {
+				props = append(props, "C03")
+			}
+			if len(props) > 0 {
+				engine.Restrict(f, props...)
+			}
 		}
 	}
 	// loop census in evaluation code outside the retrieve family and subscripts (those have their own rules)
